@@ -30,15 +30,19 @@ def ListenWorker.run (c : Consts) (svc : Service) (dec : Bytes → Frame) (reads
   | .eof => { out := h.groups.flatten, upgraded := none, handedOver := [], closedByError := false }
   | .err => { out := h.groups.flatten, upgraded := none, handedOver := [], closedByError := true }
   | .upgraded i =>
-    { out := h.groups.flatten, upgraded := some i, handedOver := h.tail ++ h.rest.flatten, closedByError := false }
+    { out := h.groups.flatten, upgraded := some i, handedOver := workerUnread true true h.tail ++ h.rest.flatten, closedByError := false }
 
 /-- The same worker after the switch, with the upgraded handler's behaviour made explicit: `handle()` is called
     again and again on `chain(unread, reader)`; `tail` is what `handle` had buffered behind the upgrading
     request, `rest` the segments the socket still delivers.  Returns what the handler processed, call by call,
     and what it was left with when the peer was done. -/
 def ListenWorker.upgradedPhase (p : UpPolicy) (tail : Bytes) (rest : List Bytes) : List Bytes × Bytes :=
-  let r := p.loop (rest.length + 2) tail rest
-  (r.1, r.2.1)
+  let u := workerUnread true true tail        -- `switched` is true exactly for the call that upgraded
+  -- server.rs: `if <Extracted.handOverAtOnce> { continue; }`, otherwise `br.fill_buf()` decides
+  if Extracted.handOverAtOnce true u.isEmpty || !rest.isEmpty then
+    let r := p.loop (rest.length + 2) u rest
+    (r.1, r.2.1)
+  else ([], u)
 
 /-! ### many connections -/
 
